@@ -320,3 +320,15 @@ package cbreaker
 //@   requires f != nil && w != nil && req != nil && req.URL != nil && f.u != nil
 //@   modifies external
 //@   ensures one_redirect: calls(w.WriteHeader) == 1 && callarg(w.WriteHeader, 0, 0) == 302 && calls(w.Write) == 1 && before(w.WriteHeader, w.Write)
+
+// Wrap / Fallback rebind a handler and nothing else: the breaker's state survives them.
+//@ func (*CircuitBreaker).Wrap
+//@   props C05 C20
+//@   requires c != nil
+//@   modifies c.next
+//@   ensures rebound: c.next == next
+//@ func (*CircuitBreaker).Fallback
+//@   props C05 C20
+//@   requires c != nil
+//@   modifies c.fallback
+//@   ensures rebound: c.fallback == f
